@@ -47,10 +47,19 @@ def fbits(x) -> str:
     return struct.pack(">d", x).hex()
 
 
-def canon(obj, numeric=False, _depth=0):
+def canon(obj, numeric=False, _depth=0, _stack=()):
+    """_stack: ids of the containers on the current path (cycle guard: a cyclic graph, e.g. a class
+    attribute that refers back to its class, must not blow up the walk)."""
     if _depth > MAX_DEPTH:
         return {"s": "<depth>"}
+    if _depth > 0 and isinstance(obj, type):
+        return {"s": "<class %s>" % obj.__name__}      # classes are expanded only when they are the object asked for
+    if not isinstance(obj, (str, bytes, int, float, bool, type(None))):
+        if id(obj) in _stack:
+            return {"s": "<cycle>"}
+        _stack = _stack + (id(obj),)
     d = _depth + 1
+    _c = lambda o, n=numeric, dd=d: canon(o, n, dd, _stack)     # noqa: E731
     if obj is None:
         return None
     if isinstance(obj, (bool, numpy.bool_)):
@@ -69,20 +78,20 @@ def canon(obj, numeric=False, _depth=0):
         return {"s": _unroot(str(obj))}
     if isinstance(obj, numpy.ndarray):
         if obj.ndim == 0:
-            return canon(obj.item(), numeric, d)
-        return [canon(x, numeric, d) for x in obj]
+            return _c(obj.item())
+        return [_c(x) for x in obj]
     if pandas is not None and isinstance(obj, pandas.Series):
-        return [canon(x, numeric, d) for x in obj.tolist()]
+        return [_c(x) for x in obj.tolist()]
     if pandas is not None and isinstance(obj, pandas.DataFrame):
-        return {"d": [[{"s": str(c)}, canon(obj[c], numeric, d)] for c in obj.columns]}
+        return {"d": [[{"s": str(c)}, _c(obj[c])] for c in obj.columns]}
     if isinstance(obj, (list, tuple)):
-        return [canon(x, numeric, d) for x in obj]
+        return [_c(x) for x in obj]
     if isinstance(obj, (set, frozenset)):
-        items = [canon(x, numeric, d) for x in obj]
+        items = [_c(x) for x in obj]
         return sorted(items, key=lambda c: json.dumps(c, sort_keys=True))
     if isinstance(obj, dict):
         items = sorted(obj.items(), key=lambda kv: repr(kv[0]))
-        return {"d": [[canon(k, numeric, d), canon(v, numeric, d)] for k, v in items]}
+        return {"d": [[_c(k), _c(v)] for k, v in items]}
     if isinstance(obj, (numpy.random.Generator, numpy.random.RandomState)):
         st = obj.bit_generator.state if isinstance(obj, numpy.random.Generator) else obj.get_state(legacy=False)
         return {"o": type(obj).__name__, "v": {"state": {"s": hashlib.sha256(repr(st).encode()).hexdigest()[:24]}}}
@@ -96,21 +105,21 @@ def canon(obj, numeric=False, _depth=0):
             v = vars(obj)[k]
             if callable(v) or isinstance(v, (classmethod, staticmethod, property)):
                 continue
-            out[k] = canon(v, numeric, d)
+            out[k] = _c(v)
         return {"c": obj.__name__, "v": out}
     if hasattr(obj, "__dict__"):
         out = {}
         for k in sorted(vars(obj)):
             if numeric and k in TEXT_FIELDS_EXCLUDED:
                 continue
-            out[k] = canon(vars(obj)[k], numeric, d)
+            out[k] = _c(vars(obj)[k])
         return {"o": type(obj).__name__, "v": out}
     if hasattr(obj, "__slots__"):
         out = {}
         for k in sorted(obj.__slots__):
             if numeric and k in TEXT_FIELDS_EXCLUDED:
                 continue
-            out[k] = canon(getattr(obj, k, None), numeric, d)
+            out[k] = _c(getattr(obj, k, None))
         return {"o": type(obj).__name__, "v": out}
     if callable(obj):
         return {"s": "<callable %s>" % getattr(obj, "__name__", type(obj).__name__)}
